@@ -63,7 +63,7 @@ TargetUdp(s, pl, wellformed) == /\ wellformed /\ pl \in ss[s].dsent /\ pl \notin
 ClientUdp(s, pl, srcOk) == /\ srcOk /\ pl \in ss[s].dtgt /\ pl \notin ss[s].dback
                            /\ ss' = [ss EXCEPT ![s].dback = @ \cup {pl}] /\ UNCHANGED <<ver, d, ending>>
 \* the client sees its connection closed: never a healthy, successful session before the end of the run
-Closed(s) == /\ (ending \/ ~ss[s].ok)
+Closed(s) == /\ (ending \/ ~ss[s].ok \/ ~d[s].valid)   \* (a malformed session may be closed at any time, even after a reply)
              /\ ss' = [ss EXCEPT ![s].closed = TRUE] /\ UNCHANGED <<ver, d, ending>>
 Ending == ending' = TRUE /\ UNCHANGED <<ver, d, ss>>
 
